@@ -2,6 +2,7 @@
 import RF.Props.C06
 import RF.Props.C07
 import RF.Props.C09
+import RF.Props.C11
 import RF.Props.C12
 import RF.Props.C13
 import RF.Props.C17
